@@ -503,7 +503,10 @@ def run(rep, tier):
     # ---- R06.15 / R06.16
     embedded_expressions(rep, fb, 'R06.15')
     all_of_kind_tests(rep, fb, per_writer, 'R06.16')
-    state_ids_resolve(rep, facts.FactBase(TUS + ['src/uscxml/transform/promela/PromelaCodeAnalyzer.cpp']), 'R06.17')
+    fba_ = facts.FactBase(TUS + ['src/uscxml/transform/promela/PromelaCodeAnalyzer.cpp'])
+    state_ids_resolve(rep, fba_, 'R06.17')
+    field_widths(rep, fba_, 'R06.19')
+    done_for_every_compound(rep, fb, 'R06.20')
 
 
 def sendid_ranges(rep, fb, rule='R06.12'):
@@ -680,3 +683,46 @@ def state_ids_resolve(rep, fb, rule='R06.17'):
         lp['k'] == 'WhileStmt' and any(z.get('ref', {}).get('name') == 'typeIter' or 'typeIter' in (fb.text(z) if z['k'] == 'DeclRefExpr' else '') for z in sub(lp['c'][0])) for lp in wv.ancestors(a))]
     rep.check(bool(skips) or maps_in_adapt, rule, 'writeVariables|state ids are no variables', wv.where(), 'the loop that declares implicit variables %s' % (
         'looks the identifier up among the state ids' if skips else 'never looks at the state ids: a state id used in config[..] is declared `hidden int`'))
+
+
+def field_widths(rep, fba, rule='R06.19'):
+    """the width of the delay field of the emitted event type is taken from the literal delay attributes; the expression form is only
+    known at run time and must widen the field"""
+    rep.rule(rule, 'the emitted event fields hold every value written into them: the range of the `delay` field, computed from literal delay attributes, is widened when a send carries a delayexpr (a byte field silently truncates 300 to 44 and reorders the delayed events)')
+    an = fba.fn('uscxml::PromelaCodeAnalyzer::analyze', required=False)
+    if an is None:
+        an = next((f_ for f_ in fba.funcs.values() if f_.q.startswith('uscxml::PromelaCodeAnalyzer::') and any(
+            y['k'] == 'MemberExpr' and y.get('ref', {}).get('name') == 'largestDelay' for y in f_.walk())), None)
+    if an is None:
+        raise AnalysisBroken('the function of PromelaCodeAnalyzer that computes largestDelay was not found')
+    writes = [n for n in an.walk() if n['k'] in ('BinaryOperator', 'CXXOperatorCallExpr') and n.get('op') == '=' and any(
+        y['k'] == 'MemberExpr' and y.get('ref', {}).get('name') == 'largestDelay' for y in sub(n['c'][-2]))]
+    rep.minimum(rule, len(writes), 1, 'assignments to largestDelay')
+    def names(c):
+        return {y.get('ref', {}).get('name') for y in sub(c)}
+    widened = False
+    for w in writes:
+        for a in an.ancestors(w):
+            if a['k'] == 'IfStmt' and 'kXMLCharDelayExpr' in names(a['c'][0]) and 'kXMLCharDelay' not in names(a['c'][0]):
+                widened = True
+    rep.check(widened, rule, 'PromelaCodeAnalyzer|delay field', locstr(writes[0]) if writes else an.where(), 'largestDelay, which sizes the delay field of _event_t, %s' % (
+        'is raised for a send with a delayexpr' if widened else 'is computed from literal delay attributes only: next to delay="250" the field is a byte and a delayexpr="300" is stored as 44'))
+
+
+def done_for_every_compound(rep, fb, rule='R06.20'):
+    """entering a final child raises done.state for its parent whether or not the author gave the parent an id"""
+    rep.rule(rule, 'the same done events as the interpreter: the writer of the enter-states phase raises done.state.<parent> for every final child of a compound state; it does not skip parents without an id attribute (the interpreter gives such a state a generated id and raises the event, which event="done.state" and event="*" match)')
+    f = fb.fn('uscxml::ChartToPromela::writeFSMEnterStates')
+    skips = []
+    for n in f.walk():
+        if n['k'] != 'IfStmt' or n['c'][1] is None:
+            continue
+        c = n['c'][0]
+        negated = any(y['k'] == 'UnaryOperator' and y.get('op') == '!' for y in sub(c))
+        if negated and any(y.get('ref', {}).get('name') == 'kXMLCharId' for y in sub(c)) and any(y['k'] == 'ContinueStmt' for y in sub(n['c'][1])) and any(
+                y.get('ref', {}).get('name') == 'parent' or y.get('callee', {}).get('q', '').endswith('getParentNode') for y in sub(c)):
+            skips.append(n)
+    raises = [n for n in f.walk() if n['k'] == 'StringLiteral' and (n.get('str') or '').startswith('done.state.')]
+    rep.minimum(rule, len(raises), 1, 'done.state literals in writeFSMEnterStates')
+    rep.check(not skips, rule, 'writeFSMEnterStates|parent without id', locstr(skips[0]) if skips else f.where(), 'a final child of a compound state without id %s' % (
+        'raises its done event like any other' if not skips else 'is SKIPPED (`if (!HAS_ATTR(parent, id)) continue;`): the model raises no done.state event where the interpreter raises done.state.<generated id>'))
